@@ -37,7 +37,9 @@ def _run_config(args):
     e = core.Engine(qtimeout_ms=(20000 if tier == 'quick' else 120000),
                     loop_bound=getattr(mod, 'LOOP_BOUND', 64))
     e.tier = tier
-    budget = getattr(mod, 'CONFIG_BUDGET_S', {'quick': 240, 'thorough': 1800})[tier]
+    budget = getattr(mod, 'CONFIG_BUDGET_S', {'quick': 240, 'thorough': 900})[tier]
+    if os.environ.get('VERIF_CONFIG_BUDGET'):
+        budget = int(os.environ['VERIF_CONFIG_BUDGET'])
     e.deadline = time.time() + budget
     try:
         mod.run_config(cfg, e)
